@@ -112,6 +112,9 @@ def o_c02(scn, obs, runner, driver):
 def o_c03_overrequest(scn, obs, runner):
     fails = []
     for ci, c in enumerate(runner.link.used):
+        if c.faults or c.env.get("faults"):
+            continue      # a transport failure in the middle of a packet leaves the reader out of frame sync for the rest of that connection (e.g. pull's clean-up
+                          # still reads on it): "more than remain in the current packet" is then not defined; the NEXT connection is judged again
         if c.over_request:
             fails.append(dict(op=None, why="bulk_read asked for more bytes than remain in the current packet %d time(s) on connection %d" % (c.over_request, ci)))
     return fails
